@@ -17,7 +17,7 @@ from __future__ import annotations
 
 import ast
 
-from ..facts import call_name
+from ..facts import norm, call_name
 from . import shared
 
 
@@ -58,6 +58,39 @@ def check(run, ctx):
                   decides="inserting blank lines or adding trailing whitespace never changes an SRP verdict")
     for rec in shared.loc_counters(ctx):
         (run.ok(L5, rec["func"], rec["detail"]) if rec["ok"] else run.finding(L5, rec["func"], "blank-lines-counted", f"{rec['func']}: {rec['detail']}", rec["loc"]))
+    L6 = run.rule("L6", "tree-sitter byte offsets (start_byte / end_byte) never slice a str: they slice bytes (the encoded source, node.text)", floor=1,
+                  decides="adding a comment that contains a non-ASCII character (or a BOM) above a construct does not shift the text a rule reads for it")
+    n_l6 = 0
+    for f in sorted(repo.funcs.values(), key=lambda x: x.qual):
+        if not f.module.name.startswith("src.") or f.parent is not None:
+            continue
+        for n in ast.walk(f.node):
+            if not (isinstance(n, ast.Subscript) and isinstance(n.slice, ast.Slice)):
+                continue
+            if not any(isinstance(x, ast.Attribute) and x.attr in ("start_byte", "end_byte") for b_ in (n.slice.lower, n.slice.upper) if b_ is not None for x in ast.walk(b_)):
+                continue
+            n_l6 += 1
+            base = n.value
+            kind = "?"
+            if isinstance(base, ast.Call) and (call_name(base) in ("encode", "bytes") or (isinstance(base.func, ast.Name) and base.func.id == "bytes")):
+                kind = "bytes"
+            elif isinstance(base, ast.Attribute) and base.attr == "text":
+                kind = "bytes"
+            elif isinstance(base, ast.Name):
+                ann = next((ast.unparse(a.annotation) for a in f.node.args.args + f.node.args.kwonlyargs if a.arg == base.id and a.annotation is not None), None)
+                defs = [a.value for a in ast.walk(f.node) if isinstance(a, ast.Assign) and any(isinstance(t, ast.Name) and t.id == base.id for t in a.targets)]
+                if ann is not None:
+                    kind = "bytes" if "bytes" in ann else "str" if ann.split("|")[0].strip() == "str" else "?"
+                elif defs and all(isinstance(d, ast.Call) and call_name(d) in ("encode", "bytes", "read_bytes") for d in defs):
+                    kind = "bytes"
+            sym = f"{f.qual.replace('src.', '', 1)}:{norm(n)[:50]}"
+            if kind == "bytes":
+                run.ok(L6, sym, "byte offsets applied to bytes")
+            elif kind == "str":
+                run.finding(L6, f.qual.replace("src.", "", 1), f"byte-offsets-on-str:{norm(n)[:60]}", f"`{norm(n)[:80]}` slices a str with tree-sitter byte offsets: every non-ASCII character (or a BOM) before the node shifts the slice, so the rule reads the wrong text as soon as such a character is added above", f"{f.module.rel}:{n.lineno}")
+            else:
+                run.undecided(L6, sym, "type of the sliced object not determined")
+    run.require(n_l6 >= 1, "no slice by start_byte/end_byte found in src (positive control: the DRY TypeScript value extractor)")
     return __doc__
 
 
